@@ -78,11 +78,15 @@ def big_blocks(ctx):
         shapes += [[D(8000)] * 12, [D(25000), D(1), D(1), D(8192), D(8193), D(0), D(8000), D(2)], [D(4099)] * 23]
     cases = [{"kind": "big", "cfg": {"n": 1, "blocks": b, "endkind": "eof", "hdr": h}, "procs": ([1, 2, 3, 11] if q else [1, 2, 3, 4, 5, 7, 11, 16, 32]),
               "variant": v} for b in shapes for h in ("ok", "none") for v in ((0, 1) if q else (0, 1, 2, 3))]
+    # large blocks again with one or two OS threads and a filter that holds one decoder up inside a block
+    pad = [b for b in shapes if any("pad" in x for x in b)]
+    cases += [{"kind": "big", "cfg": {"n": 1, "blocks": b, "endkind": "eof", "hdr": "ok"}, "procs": [1, 2, 4] if q else [1, 2, 3, 4, 8],
+               "variant": v, "gomaxprocs": g, "slowms": 25, "slowevery": 61} for b in pad for g in (1, 2) for v in ((1,) if q else (1, 3, 5))]
     recs = P.run_pipe(ctx, cases, shards=min(8, len(cases)))
     slim = [{"big": r["big"]} for r in recs]
     bad = vlib.tlc_judge(ctx, "PbfBigJudge", "PbfBigJudge.cfg", slim, shards=1)
     for c in cases:
-        ctx.note_case(["big", c["cfg"], c["variant"]], nontrivial=True)
+        ctx.note_case(["big", c["cfg"], c["variant"], c.get("gomaxprocs", 0)], nontrivial=True)
     for i, why, kf in bad[:3]:
         again = P.run_pipe(ctx, [cases[i]], shards=1)
         if vlib.tlc_judge(ctx, "PbfBigJudge", "PbfBigJudge.cfg", [{"big": again[0]["big"]}], shards=1):
